@@ -145,6 +145,25 @@ func runStress(seed int64) Result {
 		}
 	}
 	wantODText, _ := json.Marshal(wantOD)
+	// a Schema LITERAL whose slices have spare capacity (PropertyOrder shorter than the properties, Required,
+	// AllOf ...): Marshal / CloneSchemas / Resolve of the shared tree must not write into it, not even
+	// beyond the lengths of its slices
+	mkOrd := func(names ...string) []string { return append(make([]string, 0, len(names)+6), names...) }
+	lit := &jsonschema.Schema{
+		Type: "object",
+		Properties: map[string]*jsonschema.Schema{
+			"a": {Type: "integer"}, "b": {Type: "string"}, "c": {Types: append(make([]string, 0, 4), "null", "boolean")},
+			"d": {Type: "object", Properties: map[string]*jsonschema.Schema{"x": {}, "y": {Type: "null"}, "z": {}}, PropertyOrder: mkOrd("y")},
+		},
+		PropertyOrder: mkOrd("b"),
+		Required:      mkOrd("a"),
+		AllOf:         append(make([]*jsonschema.Schema, 0, 4), &jsonschema.Schema{MinProperties: jsonschema.Ptr(0)}),
+		Enum:          append(make([]any, 0, 4), map[string]any{"a": 1.0, "b": "s"}, map[string]any{}),
+	}
+	wantLit, err := json.Marshal(lit)
+	if err != nil {
+		panic(err)
+	}
 	var remote jsonschema.Schema
 	json.Unmarshal([]byte(`{"$defs":{"t":{"$anchor":"a","type":"integer"}}}`), &remote)
 	loader := func(u *url.URL) (*jsonschema.Schema, error) { return &remote, nil }
@@ -224,6 +243,29 @@ func runStress(seed int64) Result {
 					}
 					// the caller owns its instance: write into everything that was inserted
 					scribbleInstance(inst, g*1000+m)
+				}
+				{
+					b, err := json.Marshal(lit)
+					if err != nil || !bytes.Equal(b, wantLit) {
+						mu.Lock()
+						addFail("concurrent-marshal", "Marshal of a shared Schema literal with spare slice capacity", string(wantLit), fmt.Sprint(string(b), err))
+						mu.Unlock()
+					}
+					c := lit.CloneSchemas()
+					if (g+m)%2 == 0 {
+						c.Properties["extra"] = &jsonschema.Schema{} // the clone's owner edits ITS tree
+						delete(c.Properties, "extra")
+					}
+					if b, err := json.Marshal(c); err != nil || !bytes.Equal(b, wantLit) {
+						mu.Lock()
+						addFail("concurrent-clone", "Marshal of a private clone of the shared literal", string(wantLit), fmt.Sprint(string(b), err))
+						mu.Unlock()
+					}
+					if _, err := lit.Resolve(nil); err != nil {
+						mu.Lock()
+						addFail("concurrent-resolve", "Resolve of the shared literal", "nil", err.Error())
+						mu.Unlock()
+					}
 				}
 				if _, err := vds.Resolve(&jsonschema.ResolveOptions{ValidateDefaults: true}); err != nil {
 					mu.Lock()
